@@ -54,6 +54,10 @@ pub struct Case {
     /// a request with a body: its second half arrives after this many milliseconds (a slow caller)
     #[serde(default)]
     pub slow_body_ms: Option<u16>,
+    /// afterwards, on ONE keep-alive connection: a request after whose response the host closes its connection with the proxy,
+    /// then the request under test again
+    #[serde(default)]
+    pub host_hangup: bool,
 }
 
 /// move the process's wall clock forward (harness/csrc/clockshift.c, preloaded into the C05 workers); false = shim absent
@@ -122,9 +126,9 @@ pub fn strategy(spoof_range: std::ops::Range<usize>, key_prob: f64) -> impl Stra
         exempt_or(Just(gen::GUrl { path: String::new(), query: None })),
         prop::collection::vec(spoof(), spoof_range),
         prop::collection::vec(any::<u16>(), 8),
-        (crate::props::c04::query(), prop::option::weighted(0.2, (crate::props::c04::guid(), crate::props::c04::key_hex())), prop_oneof![8 => Just(0u8), 1 => Just(1u8), 1 => Just(2u8)], prop::option::weighted(0.2, prop::sample::select(vec![1u32, 59, 60, 61, 120, 300, 3600, 3660, 86400, 7 * 86400, 31 * 86400])), prop::bool::weighted(0.25), prop_oneof![5 => Just(0u8), 1 => 1u8..32], prop::option::weighted(0.04, prop::sample::select(vec![300u16, 1100, 1600, 2300]))),
+        (crate::props::c04::query(), prop::option::weighted(0.2, (crate::props::c04::guid(), crate::props::c04::key_hex())), prop_oneof![8 => Just(0u8), 1 => Just(1u8), 1 => Just(2u8)], prop::option::weighted(0.2, prop::sample::select(vec![1u32, 59, 60, 61, 120, 300, 3600, 3660, 86400, 7 * 86400, 31 * 86400])), prop::bool::weighted(0.25), prop_oneof![5 => Just(0u8), 1 => 1u8..32], prop::option::weighted(0.04, prop::sample::select(vec![300u16, 1100, 1600, 2300])), prop::bool::weighted(0.12)),
     )
-        .prop_map(|((dest, uid_sel, root), helper_sel, key, mut req, (exempt_method, exempt_url), spoofs, positions, (rich_query, rotate_to, no_host, clock_jump_s, trailer_spoof, conn_nominate, slow_body_ms))| {
+        .prop_map(|((dest, uid_sel, root), helper_sel, key, mut req, (exempt_method, exempt_url), spoofs, positions, (rich_query, rotate_to, no_host, clock_jump_s, trailer_spoof, conn_nominate, slow_body_ms, host_hangup))| {
             if let Some(m) = exempt_method {
                 req.method = m.to_string();
                 req.url = exempt_url;
@@ -138,11 +142,11 @@ pub fn strategy(spoof_range: std::ops::Range<usize>, key_prob: f64) -> impl Stra
                     req.url.query = rich_query;
                 }
             }
-            Case { rec: Rec { uid_sel, helper_sel, is_root: root.unwrap_or(uid_sel == 0), dest }, key, req, spoofs, positions, rotate_to, no_host, clock_jump_s, trailer_spoof, conn_nominate, slow_body_ms }
+            Case { rec: Rec { uid_sel, helper_sel, is_root: root.unwrap_or(uid_sel == 0), dest }, key, req, spoofs, positions, rotate_to, no_host, clock_jump_s, trailer_spoof, conn_nominate, slow_body_ms, host_hangup }
         })
 }
 
-pub const RULE_C05: &str = "generator: one case in six also carries a client Connection header that nominates proxy-owned names as hop-by-hop fields (one list, any letter case, with or without keep-alive); a quarter of the POST/PUT/PATCH requests are sent chunked with a Trailer announcement and a trailer section carrying client-chosen claims and date fields (they must not reach the host in any part of the message); in 20% of the cases the wall clock of the worker process is moved forward (1 s .. 31 days; 59/60/61 s, hours and days included) between a first request and the request under test, through a preloaded clock_gettime shim that shifts CLOCK_REALTIME for harness and agent alike, and once more between two requests on one keep-alive connection; attributed, authorised requests (IMDS from root and non-root callers with the elevation flag following the uid or set independently; WireServer/HostGAPlugin from elevated callers; another destination) with no rule sets, a key latched in 70% of the cases, carrying 0-3 client-supplied copies of x-ms-azure-host-claims / -date / -authorization in random letter case, at random positions among the other headers, with values {the opposite or same elevation claim in two spellings, an old and a future RFC 1123 date, a well-formed authorization value with a random MAC, junk}. oracle on the raw bytes captured at the mock host: exactly one claims line whose value states the record's elevation; exactly one date line, RFC 1123, within 5 s of the harness clock; if a key is latched and the request is not signature-exempt exactly one authorization line, none of the client's values, and its MAC verifies (C04). non-trivial: at least one spoofed copy or a nominating Connection header; distinct by hash of the case.";
+pub const RULE_C05: &str = "generator: in 12% of the cases the request is sent again on a keep-alive connection right after the host has closed its side following an earlier response (nothing relayed, or relayed with exactly the proxy's headers); one case in six also carries a client Connection header that nominates proxy-owned names as hop-by-hop fields (one list, any letter case, with or without keep-alive); a quarter of the POST/PUT/PATCH requests are sent chunked with a Trailer announcement and a trailer section carrying client-chosen claims and date fields (they must not reach the host in any part of the message); in 20% of the cases the wall clock of the worker process is moved forward (1 s .. 31 days; 59/60/61 s, hours and days included) between a first request and the request under test, through a preloaded clock_gettime shim that shifts CLOCK_REALTIME for harness and agent alike, and once more between two requests on one keep-alive connection; attributed, authorised requests (IMDS from root and non-root callers with the elevation flag following the uid or set independently; WireServer/HostGAPlugin from elevated callers; another destination) with no rule sets, a key latched in 70% of the cases, carrying 0-3 client-supplied copies of x-ms-azure-host-claims / -date / -authorization in random letter case, at random positions among the other headers, with values {the opposite or same elevation claim in two spellings, an old and a future RFC 1123 date, a well-formed authorization value with a random MAC, junk}. oracle on the raw bytes captured at the mock host: exactly one claims line whose value states the record's elevation; exactly one date line, RFC 1123, within 5 s of the harness clock; if a key is latched and the request is not signature-exempt exactly one authorization line, none of the client's values, and its MAC verifies (C04). non-trivial: at least one spoofed copy or a nominating Connection header; distinct by hash of the case.";
 pub const RULE_C04: &str = "end-to-end half (4% of the cases: the second half of the request body arrives 0.3-2.3 s after the first): the same rig with a key always latched and no spoofed headers; query strings from C04's colliding pools, header sets, bodies as Content-Length or chunked. oracle: the mock's raw bytes are parsed by the independent HTTP reader; exactly one authorization line 'Azure-HMAC-SHA256 <guid> <64 hex>'; HMAC_ref(key, canon_ref(received method, de-framed body, received header lines, received target)) equals it for one of the two admissible parameter orders (a transport-generated 'content-length: 0' on a body-less request may be in or out: counted as underspecified). 10% of the requests carry no Host header and 10% are HTTP/1.0 without one (hyper's server accepts both). In 20% of the cases the request is then sent twice on one keep-alive connection with the latched key replaced in between: the second one must announce and verify under the new key. Exempt uploads (PUT /vmAgentLog, POST /machine/?comp=telemetrydata, any letter case) must carry no proxy signature. non-trivial: >= 2 parameters or an escaped/valueless one, or >= 2 client headers, or a body with a line feed; distinct by hash of the case.";
 
 fn days_from_civil(y: i64, m: i64, d: i64) -> i64 {
@@ -227,6 +231,65 @@ pub fn verify_received(r: &Recorded, key_by_guid: &dyn Fn(&str) -> Option<String
         "signing:mac-does-not-verify-over-received-request".into(),
         format!("authorization '{}' does not verify for what the host received: {} {} headers {:?} body_len {}", text, r.method, r.target, r.head.headers.iter().map(|(n, v)| (n.clone(), String::from_utf8_lossy(v).to_string())).collect::<Vec<_>>(), r.body.len()),
     ))
+}
+
+fn fail2(sig: impl Into<String>, detail: impl Into<String>) -> Result<(), (String, String)> {
+    Err((sig.into(), detail.into()))
+}
+
+/// the proxy-owned header lines of one request as the host received it
+fn check_proxy_headers(case: &Case, r: &Recorded, exempt: bool, t_send: i64, t_recv: i64, stats: &mut Stats) -> Result<(), (String, String)> {
+    // ---- claims ----
+    let claims = r.head.get_all(CLAIMS);
+    if claims.len() != 1 {
+        return fail2("headers:claims-line-count", format!("{} claims lines at the host: {:?}", claims.len(), claims.iter().map(|v| String::from_utf8_lossy(v).to_string()).collect::<Vec<_>>()));
+    }
+    let want = format!("{{ \"isRoot\": \"{}\"}}", case.rec.is_root);
+    if claims[0] != want.as_bytes() {
+        return fail2("headers:claims-value-not-the-records-elevation", format!("host saw '{}' expected '{}' (record is_root={})", String::from_utf8_lossy(claims[0]), want, case.rec.is_root));
+    }
+    // ---- date ----
+    let dates = r.head.get_all(DATE);
+    if dates.len() != 1 {
+        return fail2("headers:date-line-count", format!("{} date lines at the host: {:?}", dates.len(), dates.iter().map(|v| String::from_utf8_lossy(v).to_string()).collect::<Vec<_>>()));
+    }
+    let dtext = String::from_utf8_lossy(dates[0]).to_string();
+    match parse_rfc1123(&dtext) {
+        None => return fail2("headers:date-not-rfc1123", dtext),
+        Some(t) => {
+            if t < t_send - 5 || t > t_recv + 5 {
+                return fail2("headers:date-not-current-time", format!("'{}' = {} outside [{}, {}]", dtext, t, t_send - 5, t_recv + 5));
+            }
+        }
+    }
+    // ---- authorization ----
+    let auth = r.head.get_all(AUTHZ);
+    if case.key.is_some() && !exempt {
+        let (g, k) = case.key.as_ref().unwrap();
+        for s in case.spoofs.iter().filter(|s| s.which % 3 == 2) {
+            if auth.iter().any(|a| *a == s.value.as_bytes()) {
+                return fail2("headers:client-authorization-reached-host-on-signed-request", format!("client value '{}' among {:?}", s.value, auth.iter().map(|v| String::from_utf8_lossy(v).to_string()).collect::<Vec<_>>()));
+            }
+        }
+        let client_framing = !(case.req.body.is_empty() && case.req.bare_empty);
+        match verify_received(r, &|guid| if guid == g { Some(k.clone()) } else { None }, client_framing) {
+            Ok(under) => {
+                if under {
+                    stats.underspec();
+                    stats.class("underspecified:transport-added-content-length-0");
+                }
+            }
+            Err((sig, detail)) => return Err((sig, detail)),
+        }
+    } else if exempt && case.key.is_some() {
+        // exempt uploads must not be (mis-)signed by the proxy: any authorization line must be the client's own
+        for a in &auth {
+            if !case.spoofs.iter().any(|s| s.which % 3 == 2 && s.value.as_bytes() == *a) {
+                return fail2("signing:exempt-request-carries-proxy-authorization", String::from_utf8_lossy(a).to_string());
+            }
+        }
+    }
+    Ok(())
 }
 
 pub fn eval(rig: &Rig, case: &Case, stats: &mut Stats, c04_focus: bool) -> Outcome {
@@ -347,55 +410,8 @@ pub fn eval(rig: &Rig, case: &Case, stats: &mut Stats, c04_focus: bool) -> Outco
             }
         }
     }
-    // ---- claims ----
-    let claims = r.head.get_all(CLAIMS);
-    if claims.len() != 1 {
-        return Outcome::fail("headers:claims-line-count", format!("{} claims lines at the host: {:?}", claims.len(), claims.iter().map(|v| String::from_utf8_lossy(v).to_string()).collect::<Vec<_>>()));
-    }
-    let want = format!("{{ \"isRoot\": \"{}\"}}", case.rec.is_root);
-    if claims[0] != want.as_bytes() {
-        return Outcome::fail("headers:claims-value-not-the-records-elevation", format!("host saw '{}' expected '{}' (record is_root={})", String::from_utf8_lossy(claims[0]), want, case.rec.is_root));
-    }
-    // ---- date ----
-    let dates = r.head.get_all(DATE);
-    if dates.len() != 1 {
-        return Outcome::fail("headers:date-line-count", format!("{} date lines at the host: {:?}", dates.len(), dates.iter().map(|v| String::from_utf8_lossy(v).to_string()).collect::<Vec<_>>()));
-    }
-    let dtext = String::from_utf8_lossy(dates[0]).to_string();
-    match parse_rfc1123(&dtext) {
-        None => return Outcome::fail("headers:date-not-rfc1123", dtext),
-        Some(t) => {
-            if t < t_send - 5 || t > t_recv + 5 {
-                return Outcome::fail("headers:date-not-current-time", format!("'{}' = {} outside [{}, {}]", dtext, t, t_send - 5, t_recv + 5));
-            }
-        }
-    }
-    // ---- authorization ----
-    let auth = r.head.get_all(AUTHZ);
-    if case.key.is_some() && !exempt {
-        let (g, k) = case.key.as_ref().unwrap();
-        for s in case.spoofs.iter().filter(|s| s.which % 3 == 2) {
-            if auth.iter().any(|a| *a == s.value.as_bytes()) {
-                return Outcome::fail("headers:client-authorization-reached-host-on-signed-request", format!("client value '{}' among {:?}", s.value, auth.iter().map(|v| String::from_utf8_lossy(v).to_string()).collect::<Vec<_>>()));
-            }
-        }
-        let client_framing = !(case.req.body.is_empty() && case.req.bare_empty);
-        match verify_received(r, &|guid| if guid == g { Some(k.clone()) } else { None }, client_framing) {
-            Ok(under) => {
-                if under {
-                    stats.underspec();
-                    stats.class("underspecified:transport-added-content-length-0");
-                }
-            }
-            Err((sig, detail)) => return Outcome::fail(sig, detail),
-        }
-    } else if exempt && case.key.is_some() {
-        // exempt uploads must not be (mis-)signed by the proxy: any authorization line must be the client's own
-        for a in &auth {
-            if !case.spoofs.iter().any(|s| s.which % 3 == 2 && s.value.as_bytes() == *a) {
-                return Outcome::fail("signing:exempt-request-carries-proxy-authorization", String::from_utf8_lossy(a).to_string());
-            }
-        }
+    if let Err((sig, d)) = check_proxy_headers(case, r, exempt, t_send, t_recv, stats) {
+        return Outcome::fail(sig, d);
     }
     // ---- the clock moves while a keep-alive connection stays open: the date is the time of the REQUEST ----
     if let Some(j) = case.clock_jump_s {
@@ -469,6 +485,49 @@ pub fn eval(rig: &Rig, case: &Case, stats: &mut Stats, c04_focus: bool) -> Outco
             }
         }
         crate::rawhttp::close_abortive(conn.stream);
+    }
+    // ---- the host hangs up after a response while the client's connection stays open: whatever the proxy does with the next
+    // request (an error status without relay, or a relay over a new host connection), what reaches the host carries exactly
+    // the proxy's own headers
+    if case.host_hangup {
+        stats.class("host-hangs-up-on-an-open-keep-alive-connection");
+        rig.mock.set_responder(Box::new(|r| {
+            let mut s = crate::mockhost::ResponseSpec::ok(b"mock");
+            s.close_after = r.head.get("x-host-hangs-up").is_some();
+            s
+        }));
+        let result = (|| -> Result<(), (String, String)> {
+            let mut conn = rig.open(Some(rig.entry_of(&case.rec)), 0).map_err(|e| ("rig:cannot-open-connection".to_string(), e))?;
+            let first = crate::rawhttp::request_head("GET", "/before-the-host-hangs-up", &[("Host".into(), b"169.254.169.254".to_vec()), ("x-host-hangs-up".into(), b"1".to_vec())]);
+            if conn.send(&first).is_err() || conn.read("GET", std::time::Duration::from_secs(20)).is_err() {
+                crate::rawhttp::close_abortive(conn.stream);
+                return Ok(());
+            }
+            std::thread::sleep(std::time::Duration::from_millis(5));
+            let _ = rig.mock.take_requests();
+            let t0 = SystemTime::now().duration_since(UNIX_EPOCH).unwrap().as_secs() as i64;
+            let _ = conn.send(&wire);
+            let r2 = conn.read(&req.method, std::time::Duration::from_secs(20));
+            let t1 = SystemTime::now().duration_since(UNIX_EPOCH).unwrap().as_secs() as i64;
+            let seen = rig.mock.take_requests();
+            crate::rawhttp::close_abortive(conn.stream);
+            match seen.len() {
+                0 => {
+                    stats.class("after-the-hang-up:not-relayed");
+                    let _ = r2;
+                    Ok(())
+                }
+                1 => {
+                    stats.class("after-the-hang-up:relayed-over-a-new-host-connection");
+                    check_proxy_headers(case, &seen[0], exempt, t0, t1, stats)
+                }
+                n => Err(("relay:request-relayed-more-than-once".to_string(), format!("{} requests at the host for one request after the host hung up", n))),
+            }
+        })();
+        rig.mock.set_responder(Box::new(|_r| crate::mockhost::ResponseSpec::ok(b"mock")));
+        if let Err((sig, d)) = result {
+            return Outcome::fail(sig, format!("after the host closed its connection with the proxy: {}", d));
+        }
     }
     Outcome::Pass
 }
